@@ -21,11 +21,16 @@ class LiveModel:
                 self.ID = [f["name"] for f in fs if f["ty"] == "u64"][0]
                 self.soft_vis = [f["vis"] for f in fs if f["name"] == soft[0]][0]
         self.alive_fns = set()
+        self.expired_fns = set()     # helpers: "this entry's expiry has passed" (no soft-delete involved)
         if self.sv:
             short = self.sv.split("::")[-1]
-            for name, f in F.fns.items():
-                if f.rec.get("ret") == "bool" and f.argc >= 1 and short in f.locals[1]["ty"] and f.calls_to("Clock::has_passed"):
-                    self.alive_fns.add(name)
+            cands = [f for name, f in F.fns.items() if f.rec.get("ret") == "bool" and f.kind != "Closure" and f.argc >= 1 and short in f.locals[1]["ty"]]
+            for f in cands:
+                if f.calls_to("Clock::has_passed") and not reads_field(f, self.SOFT):
+                    self.expired_fns.add(f.name)
+            for f in cands:
+                if reads_field(f, self.SOFT) and (f.calls_to("Clock::has_passed") or any(t.get("rpath") in self.expired_fns for b, t in f.calls())):
+                    self.alive_fns.add(f.name)
 
     # ---- closure predicates ---------------------------------------------------------------------
     def closure_applies_alive(self, cdef):
@@ -109,3 +114,23 @@ def rooted_in_param(e, i):
     while isinstance(e, tuple) and e and e[0] in ("field", "variant", "index", "cast"):
         e = e[1]
     return e == ("param", i)
+
+
+def reads_field(f, name):
+    for b in f.live_blocks():
+        for st in f.blocks[b]["stmts"]:
+            if st["k"] == "assign":
+                rv = st["rv"]
+                ops = []
+                if "op" in rv and isinstance(rv["op"], dict):
+                    ops.append(rv["op"])
+                for k in ("a", "b"):
+                    if isinstance(rv.get(k), dict):
+                        ops.append(rv[k])
+                places = [o["place"] for o in ops if o.get("k") in ("copy", "move")]
+                if rv["k"] in ("ref", "discr"):
+                    places.append(rv["place"])
+                for p in places:
+                    if p["l"] == 1 and any(isinstance(e, dict) and e.get("f") == name for e in p["p"]):
+                        return True
+    return False
